@@ -71,7 +71,7 @@ def handleDp (closed epsW ptsW tabW : String) : String :=
 def handleHull (w : String) : String :=
   match parsePts w with
   | some pts =>
-    let h := hullExact pts
+    let h := hullKey pts
     let isMin := match minPoint pts, h.head? with
       | some m, some q => m == q
       | none, none => true
